@@ -9,7 +9,7 @@ pub(super) fn flags_check() {
     let t0 = sym_bool();
     let a0 = mk(&[2], sym_vec(2, sym_val));
     let a = if t0 { a0.tracked() } else { a0.untracked() };
-    assert!(a.is_tracked.get() == t0 && a.keep_gradient.get() == t0, "C09 tracked()/untracked() set the flags of this handle");
+    assert!(a.is_tracked.get() == t0, "C09 tracked()/untracked() set the tracking flag of this handle");
     // Clone: every field shared by pointer or copied by value (C12)
     let c = a.clone();
     assert!(dims_eq(&c.dimensions, &a.dimensions), "C12 clone: same dimensions");
@@ -17,18 +17,18 @@ pub(super) fn flags_check() {
             && Rc::ptr_eq(&c.consumer_count, &a.consumer_count) && Rc::ptr_eq(&c.delta, &a.delta)
             && Rc::ptr_eq(&c.gradient, &a.gradient), "C12 clone shares values, graph, counters, pending and stored gradient");
     assert!(c.backward_op.is_none() == a.backward_op.is_none(), "C12 clone shares the derivative closure");
-    assert!(c.is_tracked.get() == t0 && c.keep_gradient.get() == t0, "C12 clone copies the flag values");
+    assert!(c.is_tracked.get() == t0, "C12 clone copies the flag value");
     // setting the flag on a clone never changes the original
     let prev = if sym_bool() { c.start_tracking() } else { c.stop_tracking() };
     assert!(prev == t0, "C09 start/stop_tracking return the previous value");
-    assert!(a.is_tracked.get() == t0 && a.keep_gradient.get() == t0, "C09 setting the flag on a clone never changes the original");
+    assert!(a.is_tracked.get() == t0, "C09 setting the flag on a clone never changes the original");
     let c2 = a.clone().tracked();
     assert!(c2.is_tracked.get() && a.is_tracked.get() == t0, "C09 tracked() on a clone leaves the original");
     let c3 = a.clone().untracked();
     assert!(!c3.is_tracked.get() && a.is_tracked.get() == t0, "C09 untracked() on a clone leaves the original");
     // start/stop on the handle itself
     let p1 = a.stop_tracking();
-    assert!(p1 == t0 && !a.is_tracked.get() && a.keep_gradient.get() == t0, "C09 stop_tracking clears is_tracked only");
+    assert!(p1 == t0 && !a.is_tracked.get(), "C09 stop_tracking clears the tracking flag and returns the previous value");
     let p2 = a.start_tracking();
     assert!(!p2 && a.is_tracked.get(), "C09 start_tracking sets is_tracked, returns previous");
     // a gradient deposited through a clone is visible through every other clone (C12)
